@@ -498,3 +498,48 @@ func c17mapFieldInfo(c *Ctx) {
 		c.R.Fail(rule, confPkg+".buildNamedFieldInfo#map-kind", "a field of kind map is distinguished from struct/slice fields when the key tree is built", posOf(c, f), "no path of buildNamedFieldInfo establishes kind == reflect.Map before merging: map fields get the element struct's field names as children, so an entry named like one of those fields (\"host\", \"Port\") is treated as that field and the keys below it are not folded", nil)
 	}
 }
+
+// c17configCenterVerbatim (C17.R16, round 8): the configuration center is one more way into the same loaders. The
+// document it received reaches the unmarshaler byte for byte: on the call through the center's unmarshaler field the
+// argument is the conversion of genValue's own parameter, nothing in between. White space is structure in YAML only
+// (a trimmed document loses the indentation of its first line, a final `|+` scalar its newlines): a helper that tidies
+// the text makes the YAML rendering fail or differ while JSON and TOML are unaffected.
+func c17configCenterVerbatim(c *Ctx) {
+	rule := "C17.R16"
+	pkg := "core/configcenter"
+	n := 0
+	var bad []string
+	for _, f := range c.P.AllFuncs(pkg) {
+		if f.Name() != "genValue" || len(f.Params) < 2 {
+			continue
+		}
+		for _, b := range f.Blocks {
+			for _, ins := range b.Instrs {
+				call, ok := ins.(*ssa.Call)
+				if !ok || call.Call.IsInvoke() || call.Call.StaticCallee() != nil {
+					continue
+				}
+				ld, ok := call.Call.Value.(*ssa.UnOp)
+				if !ok {
+					continue
+				}
+				fa, ok := ld.X.(*ssa.FieldAddr)
+				if !ok || fieldNameAt(fa.X.Type(), fa.Field) != "unmarshaler" || len(call.Call.Args) == 0 {
+					continue
+				}
+				n++
+				arg := call.Call.Args[0]
+				cv, isConv := arg.(*ssa.Convert)
+				var src ssa.Value = arg
+				if isConv {
+					src = cv.X
+				}
+				if p, isParam := src.(*ssa.Parameter); !isParam || p.Parent() != f {
+					bad = append(bad, fmt.Sprintf("%s: the unmarshaler is handed %s, not the document genValue received", c.P.Pos(call.Pos()), src.Name()))
+				}
+			}
+		}
+	}
+	sort.Strings(bad)
+	c.R.Check(len(bad) == 0 && n >= 1, rule, pkg+".genValue#verbatim", "the document the configuration center received reaches the format loader byte for byte (the unmarshaler's argument is the conversion of genValue's own parameter)", "-", fmt.Sprintf("%d calls through the unmarshaler field; %s", n, strings.Join(bad, "; ")), bad, n)
+}
